@@ -55,6 +55,24 @@ MONITOR_PLACEMENTS = {
 }
 
 
+# Devices on pin 0 (a pin like any other: configured before it is used), declared before the loop and at the top of its body.
+PIN0_SCRIPTS = {
+    "button-before": (["b0 = Button(0)", 'mon.write("pre")', "while True:", '    mon.write("body")', "    mon.write(b0.is_pressed())", "    sleep(5)"], {0: "inany"}, [0], []),
+    "button-looptop": (['mon.write("pre")', "while True:", "    b0 = Button(pin=0)", '    mon.write("body")', "    mon.write(b0.is_pressed())", "    sleep(5)"], {0: "inany"}, [0], []),
+    "motor-before": (["m0 = DCMotor(0, 1, 3)", 'mon.write("pre")', "while True:", '    mon.write("body")', "    m0.set_speed(0.5)", "    sleep(5)"], {0: "out", 1: "out", 3: "out"}, [], [[0, 1, 3]]),
+    "motor-looptop": (['mon.write("pre")', "while True:", "    m0 = DCMotor(0, 1, 3)", '    mon.write("body")', "    m0.set_speed(0.5)", "    sleep(5)"], {0: "out", 1: "out", 3: "out"}, [], [[0, 1, 3]]),
+    "rgb-looptop": (['mon.write("pre")', "while True:", "    r0 = RGBLed(0, 5, 6)", '    mon.write("body")', "    r0.set_color(1, 2, 3)", "    sleep(5)"], {0: "out", 5: "out", 6: "out"}, [], []),
+    "rgb-before": (["r0 = RGBLed(5, 0, 6)", 'mon.write("pre")', "r0.set_color(1, 2, 3)", "while True:", '    mon.write("body")', "    sleep(5)"], {0: "out", 5: "out", 6: "out"}, [], []),
+    "led-buzzer-before": (["l0 = Led(0)", "z0 = Buzzer(8 - 8 + 1)", 'mon.write("pre")', "l0.on()", "while True:", '    mon.write("body")', "    z0.play_tone(440, 5)", "    l0.toggle()"], {0: "out", 1: "out"}, [], []),
+    "ultrasonic-before": (["u0 = Ultrasonic(trig=0, echo=4)", 'mon.write("pre")', "while True:", '    mon.write("body")', "    mon.write(u0.measure_distance())"], {0: "out", 4: "in"}, [], []),
+    "ultrasonic-looptop": (['mon.write("pre")', "while True:", "    u0 = Ultrasonic(4, 2 - 2)", '    mon.write("body")', "    mon.write(u0.measure_distance())"], {4: "out", 0: "in"}, [], []),
+}
+
+
+def pin0_scenarios() -> list:
+    return [{"custom": f"pin0-{k}", "src": "\n".join(HEADER + v[0]) + "\n", "pins": v[1], "buttons": v[2], "motors": v[3], "hasloop": True} for k, v in PIN0_SCRIPTS.items()]
+
+
 def monitor_scenarios() -> list:
     return [{"custom": f"monitor-{k}", "src": "\n".join(_MON_HDR + v) + "\n", "pins": {5: "out"}, "buttons": [], "hasloop": True} for k, v in MONITOR_PLACEMENTS.items()]
 
@@ -206,7 +224,7 @@ def project(raw: list, buttons: list, motors: list, ticks=()) -> list:
 
 
 def run_scenario(sc: dict, passes: int = 3) -> dict:
-    r = render(sc) if "custom" not in sc else {"src": sc["src"], "pins": sc["pins"], "buttons": sc["buttons"], "motors": [], "inputs": "", "ticks": []}
+    r = render(sc) if "custom" not in sc else {"src": sc["src"], "pins": sc["pins"], "buttons": sc["buttons"], "motors": sc.get("motors", []), "inputs": "p 4 580 580 580 580\np 0 580 580 580 580\n", "ticks": []}
     # `again`: the sketch that runs is the one emitted by a process that has transpiled the same script before (the discipline
     # holds for every emission, not only for the first one of a process)
     res = fw.run_script({"src": r["src"], "passes": (passes + (1 if sc.get("cont") else 0)) if sc["hasloop"] else 0, "inputs": r["inputs"], "again": True})
